@@ -21,6 +21,7 @@ import json
 import math
 import random
 import re
+import time
 from concurrent.futures import ThreadPoolExecutor
 from datetime import timedelta
 
@@ -70,11 +71,16 @@ def spec_configs(quick: bool):
 
 
 def run_spec_level(ctx: Ctx):
-    out = []
-    for name, cfg in spec_configs(ctx.quick):
-        res = tlc.run_tlc("SensorChain", cfg, ctx.sub(f"spec_{name}"), workers=max(4, ctx.cpus // 2), timeout=2400)
-        out.append((name, res))
-    return out
+    cfgs = spec_configs(ctx.quick)
+
+    def one(nc):
+        name, cfg = nc
+        return name, tlc.run_tlc("SensorChain", cfg, ctx.sub(f"spec_{name}"), workers=max(2, ctx.cpus // 4), timeout=2400)
+
+    with ThreadPoolExecutor(3) as ex:
+        cov = ex.submit(coverage_run, ctx)
+        out = list(ex.map(one, cfgs))
+        return out, cov.result()
 
 
 def account_spec_level(ctx: Ctx, results):
@@ -88,10 +94,16 @@ def account_spec_level(ctx: Ctx, results):
             raise tlc.MachineryError(f"SensorChain {name}: only {res.distinct_states} states")
 
 
-def coverage_selftest(ctx: Ctx):
-    """Every action of the machine must be taken (small config, -coverage 1)."""
+def coverage_run(ctx: Ctx):
     cfg = spec_cfg(1, '{"slew", "fov", "los"}', '{"fov", "los"}', "{0, 1, 2}", "FALSE", stuck=True)
-    res = tlc.require_ok(tlc.run_tlc("SensorChain", cfg, ctx.sub("spec_cov"), workers=4, timeout=900, coverage=True))
+    return tlc.run_tlc("SensorChain", cfg, ctx.sub("spec_cov"), workers=2, timeout=900, coverage=True)
+
+
+def coverage_selftest(ctx: Ctx, res):
+    """Every action of the machine must be taken (small config, -coverage 1)."""
+    tlc.require_ok(res, "SensorChain coverage")
+    if res.invariant_violations:
+        raise tlc.MachineryError(f"SensorChain coverage config violates {res.invariant_violations[0][0]}")
     ctx.add_tlc(res, "SensorChain.tla coverage run")
     need = ["PoseKind", "PosePrimA", "PosePrimB", "PoseBg", "Slew", "Attempt", "Background", "SkipBackground", "Finish"]
     dead = [a for a in need if res.coverage.get(f"SensorChain!{a}", (0, 0))[1] == 0]
@@ -406,15 +418,16 @@ def sweep(run: Runner, rng, per_sensor: int, max_bg: int):
         sa.updateInfo({"boresight": base[0], "time_last_tasked": type(s.time_last_tasked)(base[1])})
 
 
-def synthetic(run: Runner, rng, scale: int):
+def synthetic(run: Runner, rng, scale: int, select):
     """(b) placements chosen by the driver: edges of every constraint +- delta, seam, zenith."""
     app = run.app
     tgts = list(app.target_agents.values())[:4]
     saved = [np.array(t.eci_state, float).copy() for t in tgts]
     prim, b1, b2, b3 = tgts
     try:
-        for sa in app.sensor_agents.values():
-            _synthetic_sensor(run, rng, sa, prim, [b1, b2, b3], scale)
+        for i, sa in enumerate(app.sensor_agents.values()):
+            if select(i):
+                _synthetic_sensor(run, rng, sa, prim, [b1, b2, b3], scale)
     finally:
         for t, st in zip(tgts, saved):
             t.eci_state = st
@@ -733,10 +746,15 @@ def run(ctx: Ctx):
     with ThreadPoolExecutor(1) as ex:
         fut = ex.submit(run_spec_level, ctx)               # TLC explores the machine while the driver drives the code
         records, inputs, stats = drive(ctx, rng)
-        spec_results = fut.result()
+        t0 = time.time()
+        spec_results, cov = fut.result()
+    t1 = time.time()
     account_spec_level(ctx, spec_results)
-    coverage_selftest(ctx)
+    coverage_selftest(ctx, cov)
+    t2 = time.time()
     validate(ctx, records, inputs)
+    ctx.extra["wall_breakdown_s"] = {"drive": round(t0 - ctx.t0, 1), "wait_for_spec_level": round(t1 - t0, 1),
+                                     "trace_validation": round(time.time() - t2, 1)}
     ctx.extra["attempts"] = stats
 
 
@@ -747,14 +765,16 @@ def drive(ctx: Ctx, rng):
              ("2021-09-10T08:00:30", 600, 3)]
     records, inputs = [], []
     stats_all = []
-    for start, step, nsteps in plans:
+    for pi, (start, step, nsteps) in enumerate(plans):
         app, start_dt = build_app(ctx, start, step, nsteps + 1, 10 if ctx.quick else 30, sensors)
         run = Runner(ctx, app, start_dt, meta)
         for n in range(nsteps):
             app.stepForward()
             sweep(run, rng, per_sensor=6 if ctx.quick else 20, max_bg=3)
-            if n == nsteps - 1 or not ctx.quick:
-                synthetic(run, rng, scale=1 if ctx.quick else 2)
+            if not ctx.quick:
+                synthetic(run, rng, 2, lambda i: True)
+            elif n == nsteps - 1:
+                synthetic(run, rng, 1, lambda i, pi=pi: i % len(plans) == pi)
         records += run.records
         inputs += run.inputs
         run.stats["start"] = start
